@@ -1,9 +1,11 @@
-"""Sidecar contracts for annet/deploy.py:make_cmd_params / fill_cmd_params (C09): each command carries the timeout and the dialog
-answers of the deploy rule that matches it, or the defaults (30 s, no dialogs) when there is no rule."""
+"""Sidecar contracts for annet/deploy.py (C09): make_cmd_params / fill_cmd_params (each command carries the timeout and the dialog
+answers of the deploy rule that matches it, or the defaults (30 s, no dialogs) when there is no rule) and apply_deploy_rulebook (the
+command list handed to the driver is, group by group, the session wrapper's enter commands, the patch commands in patch order at their
+depth, and the wrapper's leave commands)."""
 import z3
 from pyvc.dsl import SpecModule, Lazy
 from pyvc.types import *
-from pyvc.values import V, PyConstObj, PyFn, NONE_V, coerce, PyTup
+from pyvc.values import V, PyConstObj, PyFn, NONE_V, coerce, PyTup, Unsupported, lift, fresh
 from pyvc.native import dhead, dtail, dput, dhas
 
 M = SpecModule("cmdparams")
@@ -14,6 +16,10 @@ Matcher = U.opaque("Matcher")
 Answer = U.opaque("Answer")
 Question = U.opaque("Question")
 RulesO = U.opaque("RulesO")
+Hw = U.opaque("Hw")
+KeyO = U.opaque("KeyO")
+Ctx = U.opaque("Ctx")
+Ctx.empty_dict_term = lambda: z3.Const("the_empty_context", Ctx.sort())
 Dialogs = U.dict("Dialogs", Matcher, Answer)
 Attrs = U.record("Attrs", dict(dialogs=Dialogs, timeout=INT))
 Rule = U.record("Rule", dict(attrs=Attrs))
@@ -25,10 +31,16 @@ PPlain = U.record("PPlain", dict(timeout=INT))
 Params = U.union("Params", dict(full=PFull, plain=PPlain))
 OptQs = U.union("OptQs", dict(none=None, some=Qs))
 OptInt = U.union("OptInt", dict(none=None, some=INT))
-Cmd = U.record("Cmd", dict(cmd=STR, questions=OptQs, timeout=OptInt))
+Cmd = U.record("Cmd", dict(cmd=STR, questions=OptQs, timeout=OptInt, level=OptInt))
+Cmds = U.list("Cmds", Cmd)
 QH = U.record("QH", dict(_dialogs=Dialogs))
 SEQS = SeqT(STR)
-Ctx = U.opaque("Ctx")
+PathDict = U.dict("PathDict", SEQS, Ctx)
+Triple = U.tuple("Triple", [Cmd, Cmds, Cmds])               # (command, enter commands, leave commands of its session wrapper)
+Triples = U.list("Triples", Triple)
+RunP = U.tuple("RunP", [KeyO, Triples])
+Runs = U.list("Runs", RunP)
+RB = U.record("RB", dict(deploying=RulesO))
 
 
 def _q2q(m, a):
@@ -36,14 +48,65 @@ def _q2q(m, a):
     return deploy.rb_question_to_question(m, a)
 
 
-def _mdr(rules, cmd):
+def _mdr(rules, path, ctx):
     from annet.rulebook import deploying
-    return deploying.match_deploy_rule(rules, (cmd,), {})
+    return deploying.match_deploy_rule(rules, tuple(path), ctx)
+
+
+def _wrap(i):
+    def impl(rule, hw, dc, df):
+        from annet import deploy
+        return list(deploy.make_apply_commands(rule, hw, dc, df)[i])
+    return impl
+
+
+def _nl_ok(rules):
+    return all(a.send_nl for r in rules.values() for a in r["attrs"]["dialogs"].values()) and all(_nl_ok(r["children"]) for r in rules.values())
 
 
 q2q = M.opaque("q2q", [Matcher, Answer], Question, impl=_q2q, note="rb_question_to_question(matcher, answer)")
 send_nl = M.opaque("send_nl", [Answer], BOOL, impl=lambda a: bool(a.send_nl), note="Answer.send_nl")
-rule_for = M.opaque("rule_for", [RulesO, STR], RuleU, impl=_mdr, note="match_deploy_rule(rules, (cmd,), {})")
+mdr = M.opaque("mdr", [RulesO, SEQS, Ctx], RuleU, impl=_mdr, note="deploying.match_deploy_rule(rules, path, context) (proved in specs/deployrule.py)")
+bef = M.opaque("bef", [RuleU, Hw, BOOL, BOOL], Cmds, impl=_wrap(0), note="make_apply_commands(rule, hw, do_commit, do_finalize)[0]: the rule's apply logic")
+aft = M.opaque("aft", [RuleU, Hw, BOOL, BOOL], Cmds, impl=_wrap(1), note="make_apply_commands(rule, hw, do_commit, do_finalize)[1]")
+nl_ok = M.opaque("nl_ok", [RulesO], BOOL, impl=_nl_ok, note="every dialog answer of the rulebook has send_nl (the compiler's default)")
+rb_of_hw = M.opaque("rb_of_hw", [Hw], RulesO, impl=lambda hw: _get_rulebook(hw)["deploying"], note="get_rulebook(hw)['deploying']")
+keyof = M.opaque("keyof", [Triple], KeyO, impl=lambda t: (tuple(c.cmd for c in t[1]), tuple(c.cmd for c in t[2])), note="the groupby key")
+
+
+def _get_rulebook(hw):
+    from annet import deploy
+    return deploy.get_rulebook(hw)
+
+
+def _mkcmd_native(cmd, questions, timeout, level):
+    from annet.annlib.command import Command
+    c = Command(cmd, questions=questions, timeout=timeout)
+    if level is not None:
+        c.level = level
+    return c
+
+
+def _mkcmd(ex, args, kwargs, st, node):
+    return V(Cmd, Cmd.mk(cmd=coerce(args[0], STR).t, questions=coerce(args[1], OptQs).t, timeout=coerce(args[2], OptInt).t,
+                         level=coerce(args[3], OptInt).t))
+
+
+def _view_native(x):
+    """what the driver sees of a command (list): text, dialogs, timeout, depth"""
+    if isinstance(x, (list, tuple)) or hasattr(x, "cmss"):
+        return [_view_native(c) for c in x]
+    return (x.cmd, x.questions, x.timeout, getattr(x, "level", None))
+
+
+mkcmd = _mkcmd_native
+view = _view_native
+
+
+def lvl(c):
+    """the depth attribute apply_deploy_rulebook attaches to a command (absent on a fresh Command)"""
+    return getattr(c, "level", None)
+EMPTY = {}
 
 
 @M.spec
@@ -64,17 +127,158 @@ def params_of(rule: RuleU) -> Params:
     return {"questions": qs_of(rule["attrs"]["dialogs"]), "timeout": rule["attrs"]["timeout"]}
 
 
+@M.spec
+def filled(rules: RulesO, c: Cmd) -> Cmd:
+    """fill_cmd_params: the parameters of the rule matching the command's own text (as a one-element path, empty context)"""
+    r = mdr(rules, [c.cmd], EMPTY)
+    if not r:
+        return c
+    return mkcmd(c.cmd, qs_of(r["attrs"]["dialogs"]), r["attrs"]["timeout"], lvl(c))
+
+
+@M.spec
+def cmd_for(path: SEQS, rule: RuleU) -> Cmd:
+    """the command sent for one path of the patch: its last row, at depth len(path) - 1, with its rule's parameters"""
+    if not rule:
+        return mkcmd(path[-1], None, 30, len(path) - 1)
+    return mkcmd(path[-1], qs_of(rule["attrs"]["dialogs"]), rule["attrs"]["timeout"], len(path) - 1)
+
+
+@M.spec
+def triples(rest: PathDict, rules: RulesO, hw: Hw, dc: BOOL, df: BOOL) -> Triples:
+    if not rest:
+        return []
+    r = mdr(rules, dhead(rest)[0], dhead(rest)[1])
+    return [(cmd_for(dhead(rest)[0], r), bef(r, hw, dc, df), aft(r, hw, dc, df))] + triples(dtail(rest), rules, hw, dc, df)
+
+
+@M.spec
+def texts(cs: Cmds) -> SEQS:
+    return [] if not cs else [cs[0].cmd] + texts(cs[1:])
+
+
+@M.spec
+def same_wrap(a: Triple, b: Triple) -> BOOL:
+    """two commands belong to the same session wrapper: same enter texts, same leave texts"""
+    return texts(a[1]) == texts(b[1]) and texts(a[2]) == texts(b[2])
+
+
+@M.spec
+def grp(x: Triple, acc: Triples, ys: Triples) -> Runs:
+    """maximal runs of consecutive commands with the same wrapper; acc is the run being collected, x its first command"""
+    if not ys:
+        return [(keyof(x), acc)]
+    if same_wrap(x, ys[0]):
+        return grp(x, acc + [ys[0]], ys[1:])
+    return [(keyof(x), acc)] + grp(ys[0], [ys[0]], ys[1:])
+
+
+@M.spec
+def runs(xs: Triples) -> Runs:
+    return [] if not xs else grp(xs[0], [xs[0]], xs[1:])
+
+
+@M.spec
+def ne_runs(rs: Runs) -> BOOL:
+    return True if not rs else (len(rs[0][1]) > 0 and ne_runs(rs[1:]))
+
+
+@M.spec
+def fills(cs: Cmds, rules: RulesO) -> Cmds:
+    """wrapper commands are sent at depth 0 with the parameters of the rule matching their text"""
+    return [] if not cs else [filled(rules, mkcmd(cs[0].cmd, cs[0].questions, cs[0].timeout, 0))] + fills(cs[1:], rules)
+
+
+@M.spec
+def firsts(ts: Triples) -> Cmds:
+    return [] if not ts else [ts[0][0]] + firsts(ts[1:])
+
+
+@M.spec
+def emit(rs: Runs, rules: RulesO) -> Cmds:
+    """per run: enter commands of its wrapper, the run's commands in order, leave commands"""
+    if not rs:
+        return []
+    return fills(rs[0][1][0][1], rules) + (firsts(rs[0][1]) + (fills(rs[0][1][0][2], rules) + emit(rs[1:], rules)))
+
+
 def _mk_qh(ex, args, kwargs, st, node):
     return V(QH, QH.mk(_dialogs=coerce(args[0], Dialogs).t))
 
 
 def _match_deploy_rule(ex, args, kwargs, st, node):
-    path = coerce(args[1], SEQS)
-    return V(RuleU, rule_for.decl()(coerce(args[0], RulesO).t, path.t[0]))
+    return V(RuleU, mdr.decl()(coerce(args[0], RulesO).t, coerce(args[1], SEQS).t, coerce(args[2], Ctx).t))
+
+
+def _make_apply_commands(ex, args, kwargs, st, node):
+    a = [coerce(args[0], RuleU).t, coerce(args[1], Hw).t, coerce(args[2], BOOL).t, coerce(args[3], BOOL).t]
+    return PyTup([V(Cmds, bef.decl()(*a)), V(Cmds, aft.decl()(*a))])
+
+
+def _command(ex, args, kwargs, st, node):
+    """Command(text, **params): params is the Params value of make_cmd_params"""
+    p = kwargs.get("**")
+    if p is None or set(kwargs) != {"**"} or len(args) != 1:
+        raise Unsupported("Command(...) in another shape than Command(text, **cmd_params)")
+    p = coerce(p, Params)
+    full = Params.is_(p.t, "full")
+    pf, pp = Params.val(p.t, "full"), Params.val(p.t, "plain")
+    qs = z3.If(full, OptQs.mk("some", PFull.get(pf, "questions")), OptQs.mk("none"))
+    to = OptInt.mk("some", z3.If(full, PFull.get(pf, "timeout"), PPlain.get(pp, "timeout")))
+    return V(Cmd, Cmd.mk(cmd=coerce(args[0], STR).t, questions=qs, timeout=to, level=OptInt.mk("none")))
+
+
+def _cmdlist(ex, args, kwargs, st, node):
+    return V(Cmds, Cmds.nil)
+
+
+def _add_cmd(ex, recv, recv_node, args, kwargs, st, node):
+    from pyvc.values import concat
+    ex.assign_to(recv_node, concat(recv, PyTup([args[0]], True)), st)
+    return NONE_V
+
+
+Cmds.methods = {"add_cmd": _add_cmd}
+
+
+def _groupby(ex, args, kwargs, st, node):
+    """itertools.groupby(xs, key=f): maximal runs of consecutive elements with equal keys (model: spec `runs`); that the key function
+    equates exactly the commands of one session wrapper (`same_wrap`) is an obligation, for two arbitrary elements"""
+    if set(kwargs) != {"key"} or len(args) != 1 or not isinstance(kwargs["key"], PyFn):
+        raise Unsupported("groupby() in another shape than groupby(xs, key=f)")
+    xs = coerce(args[0], Triples)
+    a, b = fresh(Triple, "grp_a"), fresh(Triple, "grp_b")
+    from pyvc.values import eq as eq_values
+    ka = kwargs["key"].call(ex, [a], {}, st, node)
+    kb = kwargs["key"].call(ex, [b], {}, st, node)
+    ex.ctx.oblige("safety", st, eq_values(ka, kb) == same_wrap.sym_call(ex, [a, b], {}, st, node).t, node.lineno,
+                  "the groupby key equates exactly the commands with the same enter and leave command texts")
+    return runs.sym_call(ex, [xs], {}, st, node)
+
+
+def _get_rulebook_sym(ex, args, kwargs, st, node):
+    return V(RB, RB.mk(deploying=rb_of_hw.decl()(coerce(args[0], Hw).t)))
 
 
 M.export(RulebookQuestionHandler=PyFn("RulebookQuestionHandler", _mk_qh),
-         deploying=PyConstObj("deploying", dict(match_deploy_rule=PyFn("match_deploy_rule", _match_deploy_rule))))
+         deploying=PyConstObj("deploying", dict(match_deploy_rule=PyFn("match_deploy_rule", _match_deploy_rule))),
+         make_apply_commands=PyFn("make_apply_commands", _make_apply_commands), Command=PyFn("Command", _command),
+         CommandList=PyFn("CommandList", _cmdlist), get_rulebook=PyFn("get_rulebook", _get_rulebook_sym),
+         itertools=PyConstObj("itertools", dict(groupby=PyFn("groupby", _groupby))),
+         mkcmd=PyFn("mkcmd", _mkcmd), lvl=PyFn("lvl", lambda ex, args, kwargs, st, node: ex.getattr_(args[0], "level", st, node)), view=PyFn("view", lambda ex, args, kwargs, st, node: args[0]),
+         EMPTY=Lazy(lambda: V(Ctx, Ctx.empty_dict_term())))
+
+M.lemma("rulebook_answers_send_nl", vars=dict(rules=RulesO, p=SEQS, c=Ctx), hyps=["nl_ok(rules)"],
+        goal="all_nl(mdr(rules, p, c)['attrs']['dialogs']) if mdr(rules, p, c) else True", assumed=True, pattern="mdr(rules, p, c)",
+        properties=["C09"], note="a rulebook whose answers all have send_nl (what the compiler produces by default) only yields rules "
+        "with such answers; rb_question_to_question raises otherwise")
+M.lemma("groups_are_never_empty", vars=dict(x=Triple, acc=Triples, ys=Triples), hyps=["len(acc) > 0"], goal="ne_runs(grp(x, acc, ys))",
+        induct="ys", general=["x", "acc"], ih=[dict(x="x", acc="acc + [ys[0]]"), dict(x="ys[0]", acc="[ys[0]]")], properties=["C09"])
+
+M.lemma("runs_are_never_empty", vars=dict(xs=Triples), hyps=[], goal="ne_runs(runs(xs))", use=["groups_are_never_empty"],
+        instances=[("groups_are_never_empty", dict(x="xs[0]", acc="[xs[0]]", ys="xs[1:]"))], pattern="grp(xs[0], [xs[0]], xs[1:])", properties=["C09"])
+M.lemma("texts_comprehension", vars=dict(cs=Cmds), hyps=[], goal="[cmd.cmd for cmd in cs] == texts(cs)", induct="cs",
+        pattern="[cmd.cmd for cmd in cs]", properties=["C09"])
 
 Q2Q = M.contract(F, "rb_question_to_question", params=dict(q=Matcher, a=Answer), ret=Question, trusted=True,
                  requires=["send_nl(a)"], ensures=["result == q2q(q, a)"],
@@ -88,16 +292,39 @@ MCP = M.contract(F, "make_cmd_params", params=dict(rule=RuleU), ret=Params, loca
                                 inv=["qa_list + qs_of(_rest1) == qs_of(rule['attrs']['dialogs'])", "all_nl(_rest1)"])},
                  calls={"rb_question_to_question": Q2Q},
                  canaries=["result == {'timeout': 30}"], properties=["C09"],
-                 note="a command's parameters are the rule's timeout and one Question per dialog, in order; (30 s, no dialogs) without a rule; timeouts are numbers that are only copied and compared for equality (floats at run time, integers in the encoding)")
+                 note="a command's parameters are the rule's timeout and one Question per dialog, in order; (30 s, no dialogs) without a rule; "
+                      "timeouts are numbers that are only copied and compared for equality (floats at run time, integers in the encoding)")
 
 FCP = M.contract(F, "fill_cmd_params", params=dict(rules=RulesO, cmd=Cmd), ret=NONE, modifies=["cmd"],
-                 requires=["all_nl(rule_for(rules, cmd.cmd)['attrs']['dialogs']) if rule_for(rules, cmd.cmd) else True"],
-                 ensures=["cmd.cmd == old(cmd).cmd",
-                          "(cmd.timeout == rule_for(rules, cmd.cmd)['attrs']['timeout'] and "
-                          " cmd.questions == qs_of(rule_for(rules, cmd.cmd)['attrs']['dialogs'])) if rule_for(rules, cmd.cmd) else cmd == old(cmd)"],
+                 requires=["nl_ok(rules)"], use=["rulebook_answers_send_nl"],
+                 ensures=["view(cmd) == view(filled(rules, old(cmd)))"],
                  calls={"make_cmd_params": MCP},
-                 canaries=["cmd == old(cmd)"], properties=["C09"],
+                 canaries=["view(cmd) == view(old(cmd))"], properties=["C09"],
                  note="session-wrapper commands get the parameters of the rule matching their own text, and are left alone without one")
+
+ADR = M.contract(F, "apply_deploy_rulebook", params=dict(hw=Hw, cmd_paths=PathDict, do_finalize=BOOL, do_commit=BOOL), ret=Cmds,
+                 defaults=dict(do_finalize=True, do_commit=True), locals=dict(cmds_with_apply=Triples, cmdlist=Cmds),
+                 requires=["nl_ok(rb_of_hw(hw))", "forall_paths_nonempty(cmd_paths)"],
+                 use=["rulebook_answers_send_nl", "runs_are_never_empty", "texts_comprehension"],
+                 ensures=["view(result) == view(emit(runs(triples(cmd_paths, rb_of_hw(hw), hw, do_commit, do_finalize)), rb_of_hw(hw)))"],
+                 loops={1: dict(match="cmd_paths.items()",
+                                inv=["cmds_with_apply + triples(_rest1, rules, hw, do_commit, do_finalize) == "
+                                     "triples(cmd_paths, rules, hw, do_commit, do_finalize)", "forall_paths_nonempty(_rest1)"]),
+                        2: dict(match="itertools.groupby(cmds_with_apply, key=_key)",
+                                inv=["cmdlist + emit(_rest2, rules) == emit(_it2, rules)", "ne_runs(_rest2)"]),
+                        3: dict(match="before", inv=["cmdlist + fills(_rest3, rules) == entry(cmdlist) + fills(before, rules)"]),
+                        4: dict(match="cmd_before_after", inv=["cmdlist + firsts(_rest4) == entry(cmdlist) + firsts(cmd_before_after)"]),
+                        5: dict(match="after", inv=["cmdlist + fills(_rest5, rules) == entry(cmdlist) + fills(after, rules)"])},
+                 calls={"make_cmd_params": MCP, "fill_cmd_params": FCP},
+                 canaries=["len(result) == 0"], properties=["C09"],
+                 note="relative to match_deploy_rule (proved in specs/deployrule.py), the rule's apply logic (opaque pair of command lists; "
+                      "common.apply is proved in specs/rbcommon.py), itertools.groupby modelled as maximal runs of equal keys")
+
+
+@M.spec
+def forall_paths_nonempty(d: PathDict) -> BOOL:
+    """every command path has at least its own row"""
+    return True if not d else (len(dhead(d)[0]) > 0 and forall_paths_nonempty(dtail(d)))
 
 
 # ---- native evaluation
@@ -141,3 +368,36 @@ def _fcp_inputs():
 
 MCP.native_inputs = _mcp_inputs
 FCP.native_inputs = _fcp_inputs
+
+ADR.owned_elements = {
+    "before": "the Command objects of the list returned by the rule's apply logic are referenced by nothing else that is read afterwards "
+              "(every shipped apply logic builds them with Command(...) in the call; the other path to them, cmd_before_after[i][1], is "
+              "bound to the unused name _before)",
+    "after": "as for `before` (cmd_before_after[i][2] is bound to the unused name _after)"}
+
+
+def _adr_inputs():
+    """command paths of small patch trees on several hardware models, incl. Aruba trees whose rows alternate between the two session
+    wrappers of the shipped aruba rulebook (ap-env context / configuration mode)"""
+    from bounded.common import setup_annet
+    setup_annet()
+    import bounded.gen_rb as g
+    import bounded.c09 as b
+    trees = [([["a 1", None]], ()), ([["a 1", None], ["b 2", None], ["c 3", None]], (1,)),
+             ([["a 1", None], ["b 2", None], ["c 3", None], ["d 4", None]], (0, 2)),
+             ([["interface e1", [["mtu 9000", None], ["shutdown", None]]], ["save", None], ["x", None]], (2,)),
+             ([["a 1", None], ["interface e1", [["mtu 1", None]]], ["b 1", None]], (0, 2)), ([], ())]
+    for model in ("Aruba", "Huawei CE6870", "Cisco", "Arista", "Juniper"):
+        try:
+            hw = g.hw_of(model)
+            cmd_fmt = b._formatters(hw)[1]
+        except Exception:
+            continue
+        for nested, tagged in trees:
+            pt = b.pt_build_ctx(nested, set(tagged))
+            paths = cmd_fmt.cmd_paths(pt)
+            for dc, df in b.FLAGS:
+                yield dict(hw=hw, cmd_paths=paths, do_finalize=df, do_commit=dc)
+
+
+ADR.native_inputs = _adr_inputs
